@@ -208,8 +208,8 @@ def readFields {V : Type} (P : List Char → Option (V × Nat)) :
       | (.error e, r2, is2) => (.error e, r2, is2)
       | (.ok vs, r2, is2) => (.ok (v :: vs), r2, is2)
 
-/-- `read_row_impl` (a fresh reader per row, as in the C++) -/
-def readRowImpl {V : Type} (P : List Char → Option (V × Nat)) (n : Nat) (sep : Char) (is : IStream) :
+/-- body of `read_row_impl` (a fresh reader per row, as in the C++) without any error handler -/
+def readRowCore {V : Type} (P : List Char → Option (V × Nat)) (n : Nat) (sep : Char) (is : IStream) :
     Res (List V) × IStream :=
   match skipComments {} is with
   | (.error e, _, is1) => (.error e, is1)
@@ -220,6 +220,28 @@ def readRowImpl {V : Type} (P : List Char → Option (V × Nat)) (n : Nat) (sep 
       match nextLine r2 is2 with
       | (.error e, is3) => (.error e, is3)
       | (.ok (), is3) => (.ok vs, is3)
+
+/-- `discard_line` (error recovery; exists in csv.tpp iff `rowImplResyncs`): `is.clear(); is.ignore(max, end)`.
+    The reader object is destroyed right after, so its `bufidx = 0` is not observable; `is.bad()` is
+    not modelled (`IStream` has no badbit). -/
+def discardLine (is : IStream) : IStream := (is.clear).ignoreLine endCh
+
+/-- the handler `catch (read_error &) { if (resync) reader.discard_line(is); throw; }` of the row
+    functions, `resync = !is.fail()` evaluated at entry.  `handler = false`: the code has no handler. -/
+def onRowError (handler entryFail : Bool) (is : IStream) : IStream :=
+  if handler && !entryFail then discardLine is else is
+
+/-- `read_row_impl`, with (`handler = true`) or without the error handler -/
+def readRowImplG {V : Type} (handler : Bool) (P : List Char → Option (V × Nat)) (n : Nat) (sep : Char)
+    (is : IStream) : Res (List V) × IStream :=
+  match readRowCore P n sep is with
+  | (.error e, is1) => (.error e, onRowError handler is.fail is1)
+  | (.ok vs, is1) => (.ok vs, is1)
+
+/-- `read_row_impl` as csv.tpp has it now (the translator reports whether the handler is there) -/
+def readRowImpl {V : Type} (P : List Char → Option (V × Nat)) (n : Nat) (sep : Char) (is : IStream) :
+    Res (List V) × IStream :=
+  readRowImplG rowImplResyncs P n sep is
 
 /-- `while (!reader.done(is)) v.push_back(reader.read(is, sep));` -/
 def readAll {V : Type} (P : List Char → Option (V × Nat)) :
@@ -236,8 +258,8 @@ def readAll {V : Type} (P : List Char → Option (V × Nat)) :
         | (.error e, r2, is2) => (.error e, r2, is2)
         | (.ok vs, r2, is2) => (.ok (v :: vs), r2, is2)
 
-/-- `read_row_std_vector` -/
-def readRowStdVector {V : Type} (P : List Char → Option (V × Nat)) (sep : Char) (is : IStream) :
+/-- body of `read_row_std_vector` without any error handler -/
+def readVecCore {V : Type} (P : List Char → Option (V × Nat)) (sep : Char) (is : IStream) :
     Res (List V) × IStream :=
   match skipComments {} is with
   | (.error e, _, is1) => (.error e, is1)
@@ -248,6 +270,18 @@ def readRowStdVector {V : Type} (P : List Char → Option (V × Nat)) (sep : Cha
       match nextLine r2 is2 with
       | (.error e, is3) => (.error e, is3)
       | (.ok (), is3) => (.ok vs, is3)
+
+/-- `read_row_std_vector`, with or without the error handler -/
+def readRowStdVectorG {V : Type} (handler : Bool) (P : List Char → Option (V × Nat)) (sep : Char)
+    (is : IStream) : Res (List V) × IStream :=
+  match readVecCore P sep is with
+  | (.error e, is1) => (.error e, onRowError handler is.fail is1)
+  | (.ok vs, is1) => (.ok vs, is1)
+
+/-- `read_row_std_vector` as csv.tpp has it now -/
+def readRowStdVector {V : Type} (P : List Char → Option (V × Nat)) (sep : Char) (is : IStream) :
+    Res (List V) × IStream :=
+  readRowStdVectorG rowVecResyncs P sep is
 
 /-! ### Printers' framing (`print.tpp`), over the element tokens -/
 
